@@ -80,11 +80,14 @@ def _flag_ops(prog, body, depth=2, seen=None):
             if not (c.trait in ("std::ops::BitOr", "std::ops::BitAnd") and "message::flags" in c.callee):
                 continue
             args = " ".join(body.provenance(a) + " " + a.get("item", "") for a in c.args)
-            if c.name == "bitor" and "MsgFlags>::MORE" in args:
+            if c.name == "bitor" and "MsgFlags>::MORE" in args and body.loops_containing(c.blk):
+                # per-frame normalisation: the OR happens inside the loop over the frames
                 sets = True
             if c.name == "bitand" and "not(" in args:
                 # the complemented operand must be MORE
                 for n in body.calls:
+                    if not body.loops_containing(c.blk):
+                        break
                     if n.name == "not" and "message::flags" in n.callee and any("MsgFlags>::MORE" in (a.get("item") or "") for a in n.args) and n.dest["l"] in [a["p"]["l"] for a in c.args if a["c"] in ("copy", "move")]:
                         clears = True
     if depth > 0:
@@ -122,7 +125,7 @@ def _forwards(prog, body, depth=3, seen=None):
 
 def r2_more_normalisation(chk):
     r = chk.rule("R2", "every send_multipart normalises MORE flags", "T2 sibling agreement",
-                 "each ISocket::send_multipart that forwards user frames sets MORE on all but the last frame and clears it on the last (in its body or a local callee)")
+                 "each ISocket::send_multipart that forwards user frames sets MORE on all but the last frame and clears it on the last, inside a loop over the frames (in its body or a local callee)")
     for cfg, prog in chk.configs():
         for body in prog.bodies.values():
             if body.impl_trait != "socket::ISocket" or body.name != "send_multipart" or body.kind.startswith("coroutine") or body.kind == "closure":
